@@ -17,7 +17,7 @@ TECHNIQUE = "SMT equivalence (z3 QF_BV) between the Amaranth netlist IR of the r
 BOUNDS = {
     "quick": "widths 1..8 for popcount/clz/ctz/lowest-set-bit/mask_* helpers and cyclic_mask; mod_incr/mod_add for mod 1..9, max_incr 0..3 plus three cases with max_incr > mod (several wraps); "
              "sum/or/and/min/max_value on 2..4 operands of widths 1..3; mux/switch_value with 1..2-bit selector",
-    "thorough": "widths 1..16; mod 1..17, max_incr 0..5; reductions on 2..5 operands of widths 1..4",
+    "thorough": "widths 1..32; mod 1..39, max_incr 0..9; reductions on 2..5 operands of widths 1..4",
 }
 OUTSIDE = ["widths above the enumerated range", "mod_add/mod_incr with sig >= mod or incr > max_incr (documented precondition)",
            "cyclic_mask with start/end >= bits", "signed operands of min/max_value", "one_hot_mux (checked under C38)"]
@@ -27,11 +27,11 @@ T = z3.BoolVal(True)
 
 
 def configs(tier, seed):
-    hi = 8 if tier == "quick" else 16
+    hi = 8 if tier == "quick" else 32
     out = [dict(group="bits", w=w) for w in range(1, hi + 1)]
     out += [dict(group="cyclic_mask", w=w) for w in range(1, hi + 1)]
-    mods = range(1, 10) if tier == "quick" else range(1, 18)
-    mis = range(0, 4) if tier == "quick" else range(0, 6)
+    mods = range(1, 10) if tier == "quick" else range(1, 40)
+    mis = range(0, 4) if tier == "quick" else range(0, 10)
     out += [dict(group="mod", mod=m, max_incr=mi) for m in mods for mi in mis]
     out += [dict(group="mod", mod=3, max_incr=5), dict(group="mod", mod=5, max_incr=7), dict(group="mod", mod=6, max_incr=13)]  # several wraps
     nops = (2, 3, 4) if tier == "quick" else (2, 3, 4, 5)
